@@ -58,7 +58,7 @@ func (p *C18) Gen(seed uint64, e int, tier string) *scen.Scenario {
 	}
 	sc.Tapes = &scen.Tapes{Map: mapTape}
 
-	bases := []string{lay.home, lay.cwd, "/home/u", "/home/user2", "/opt/x", "/opt/x/y", "/srv", "/verif", "/verif/internal"}
+	bases := []string{lay.home, lay.cwd, "/home/u", "/home/user2", "/opt/x", "/opt/x/y", "/srv", "$SRCROOT", "$SRCROOT/internal"}
 	repls := []string{"~", "~u", "$X", "$Y", "@", "=v", "%"}
 	var added []string
 	addedRe := []string{}
@@ -146,7 +146,7 @@ func (p *C18) WellFormed(sc *scen.Scenario) bool {
 		op := &sc.Setup[i]
 		switch op.Op {
 		case "add_path", "remove_path":
-			if len(op.Name) < 2 || op.Name[0] != '/' || strings.HasSuffix(op.Name, "/") {
+			if len(op.Name) < 2 || (op.Name[0] != '/' && !strings.HasPrefix(op.Name, "$SRCROOT")) || strings.HasSuffix(op.Name, "/") {
 				return false
 			}
 			if op.Op == "add_path" && (op.Msg == "" || op.Msg[0] == '/') {
@@ -185,6 +185,20 @@ func (p *C18) Check(sc *scen.Scenario, run *orch.Run, env *orch.Env) []orch.Viol
 		return []orch.Violation{{Rule: "C18.terminated", Witness: "world", Detail: fmt.Sprintf("world ended early exit=%d stderr=%.300q", run.ExitCode, lastLines(run.Stderr, 300))}}
 	}
 	ops := indexOps(run)
+	// the directory the world's interpreter was compiled from (caller.file of its records)
+	srcDirOf := ""
+	for _, e := range run.Events {
+		if e.K == "start" {
+			if i := strings.Index(e.S, "src="); i >= 0 {
+				srcDirOf = e.S[i+4:]
+			}
+			break
+		}
+	}
+	expand := func(s string) string {
+		s = strings.ReplaceAll(s, "$SRCDIR", srcDirOf)
+		return strings.ReplaceAll(s, "$SRCROOT", filepath.Dir(filepath.Dir(srcDirOf)))
+	}
 	home, cwd := sc.World.Home, sc.World.Cwd
 	maps := map[string]string{}
 	var order []string
@@ -280,9 +294,9 @@ func (p *C18) Check(sc *scen.Scenario, run *orch.Run, env *orch.Env) []orch.Viol
 		}
 		switch op.Op {
 		case "add_path":
-			put(op.Name, op.Msg)
+			put(expand(op.Name), op.Msg)
 		case "remove_path":
-			delete(maps, op.Name)
+			delete(maps, expand(op.Name))
 		case "add_path_re":
 			res = append(res, op.Name)
 		case "remove_path_re":
@@ -333,7 +347,7 @@ func (p *C18) Check(sc *scen.Scenario, run *orch.Run, env *orch.Env) []orch.Viol
 				file = m[1]
 			}
 			if file != "" {
-				judge("caller.file", "/verif/internal/world/interp.go", file)
+				judge("caller.file", filepath.Join(srcDirOf, "interp.go"), file)
 			}
 		}
 	}
